@@ -699,8 +699,14 @@ impl Exec {
                     _ => match sess {
                         Sess::L(mut x) => {
                             let credit = cfg.get("credit").and_then(|x| x.as_i64()).unwrap_or(-1);
+                            // sender-side options of an accepted link: initial delivery-count and max-message-size
+                            let idc = cfg.get("idc").and_then(|x| x.as_i64()).map(|v| real(v, self.sh.dc_out));
+                            let mms = cfg.get("mms").and_then(|x| x.as_u64());
                             tokio::spawn(async move {
-                                let acc = LinkAcceptor::builder().build();
+                                let mut b = LinkAcceptor::builder();
+                                if let Some(v) = idc { b = b.initial_delivery_count(v); }
+                                if let Some(m) = mms { b = b.max_message_size(m); }
+                                let acc = b.build();
                                 match acc.accept(&mut x).await {
                                     Ok(LinkEndpoint::Receiver(mut r)) => {
                                         // the acceptor builder has no credit option: policy is set right after accept
